@@ -426,4 +426,281 @@ theorem getColor_late_iff {c c' : Conf} (hg : Good c.noColor c.map) (hg' : Good 
     rw [getColor_of_resolves hg' hreg' hr (by rw [hl.nc]; exact hf)]
     exact hne
 
+/-! ### a registered class has its defaults described (each class is a component of its own) -/
+
+/-- every palette class that counts as registered has all ids of its `SYNTAX_DEFAULTS` described in the
+configuration, except possibly ids that `items` is about to offer -/
+def SrcInvOr (classes : List ClassDef) (items : List (Id × Str)) (c : Conf) : Prop :=
+  ∀ (k : Nat) (cd : ClassDef) (cfg : Cfg), Src.cls k ∈ c.sources → classes[k]? = some cd → cd.defaults = some cfg →
+    ∀ kv ∈ flatten cfg, (strOf c.map kv.1).isSome = true ∨ kv ∈ items
+
+def SrcInv (classes : List ClassDef) (c : Conf) : Prop := SrcInvOr classes [] c
+
+theorem SrcInv.described {classes : List ClassDef} {c : Conf} (h : SrcInv classes c) {k : Nat} {cd : ClassDef}
+    {cfg : Cfg} (hk : Src.cls k ∈ c.sources) (hcd : classes[k]? = some cd) (hdf : cd.defaults = some cfg) :
+    ∀ kv ∈ flatten cfg, (strOf c.map kv.1).isSome = true := by
+  intro kv hkv
+  rcases h k cd cfg hk hcd hdf kv hkv with a | a
+  · exact a
+  · cases a
+
+theorem SrcInv.later {classes : List ClassDef} {c c' : Conf} (h : SrcInv classes c) (hl : Later c c')
+    (hs : c'.sources = c.sources) : SrcInv classes c' := by
+  intro k cd cfg hk hcd hdf kv hkv
+  rw [hs] at hk
+  have := h.described hk hcd hdf kv hkv
+  cases hx : strOf c.map kv.1 with
+  | none => simp [hx] at this
+  | some x => exact .inl (by simp [hl.strs _ x hx])
+
+theorem dictGet_isSome_of_mem {β : Type} {l : List (Str × β)} {kv : Str × β} (h : kv ∈ l) :
+    (dictGet l kv.1).isSome = true := by
+  induction l with
+  | nil => cases h
+  | cons x l ih =>
+    obtain ⟨k0, v0⟩ := x
+    by_cases hk : k0 = kv.1
+    · simp [dictGet, hk]
+    · simp only [dictGet, hk, if_false]
+      rcases List.mem_cons.mp h with rfl | h'
+      · exact absurd rfl hk
+      · exact ih h'
+
+/-- what the synced-palette loop guarantees, in the form `addWith_step` wants it -/
+def SyncStep (classes : List ClassDef) (sync : GWorld → Except Err GWorld) : Prop :=
+  ∀ g g', WGood classes g.w → sync g = .ok g' →
+    WGood classes g'.w ∧ Later g.w.conf g'.w.conf ∧ g'.isGlobal = g.isGlobal ∧
+      g'.synced.map (·.1) = g.synced.map (·.1) ∧ (g.isGlobal = true → Fresh classes g')
+
+theorem addWith_srcInv {classes : List ClassDef} {sync : GWorld → Except Err GWorld}
+    (hsync : ∀ g g', WGood classes g.w → SrcInv classes g.w.conf → sync g = .ok g' → SrcInv classes g'.w.conf)
+    {g g' : GWorld} {items : List (Id × Str)} (hg : WGood classes g.w)
+    (hi : SrcInvOr classes items g.w.conf) (h : addWith sync g items = .ok g') :
+    SrcInv classes g'.w.conf := by
+  unfold addWith at h
+  cases h1 : addNewItems g.w.conf items with
+  | error e => simp [h1] at h
+  | ok c' =>
+    simp only [h1] at h
+    obtain ⟨hg1, hl1, hsrc, hstr⟩ := addNewItems_cgood hg.conf h1
+    have hi1 : SrcInv classes c' := by
+      intro k cd cfg hk hcd hdf kv hkv
+      rw [hsrc] at hk
+      refine .inl ?_
+      rw [hstr]
+      unfold firstStr
+      rcases hi k cd cfg hk hcd hdf kv hkv with a | a
+      · cases hx : strOf g.w.conf.map kv.1 with
+        | none => simp [hx] at a
+        | some x => simp
+      · cases hx : strOf g.w.conf.map kv.1 with
+        | none => simpa using dictGet_isSome_of_mem a
+        | some x => simp
+    split at h
+    · exact hsync ({ g with w := { g.w with conf := c' } } : GWorld) g' ⟨hg1, hg.nc⟩ hi1 h
+    · cases h; exact hi1
+
+theorem regCompWith_srcInv {classes : List ClassDef} {sync : GWorld → Except Err GWorld}
+    (hsync : ∀ g g', WGood classes g.w → SrcInv classes g.w.conf → sync g = .ok g' → SrcInv classes g'.w.conf)
+    {g g' : GWorld} {cfg : Cfg} {src : Src} (hg : WGood classes g.w) (hi : SrcInv classes g.w.conf)
+    (hsrc : ∀ k, src = Src.cls k → ∃ cd, classes[k]? = some cd ∧ cd.defaults = some cfg)
+    (h : regCompWith sync g cfg src = .ok g') : SrcInv classes g'.w.conf := by
+  unfold regCompWith at h
+  split at h
+  · cases h
+  · refine addWith_srcInv hsync (g := { g with w := { g.w with conf := { g.w.conf with sources := src :: g.w.conf.sources } } })
+      ⟨⟨hg.conf.good, hg.conf.cache⟩, hg.nc⟩ ?_ h
+    intro k cd cfg' hk hcd hdf kv hkv
+    rcases List.mem_cons.mp hk with hk | hk
+    · obtain ⟨cd2, hcd2, hdf2⟩ := hsrc k hk.symm
+      rw [hcd] at hcd2; cases hcd2
+      rw [hdf] at hdf2; cases hdf2
+      exact .inr hkv
+    · exact .inl (hi.described hk hcd hdf kv hkv)
+
+theorem regParents_srcInv {classes : List ClassDef} {reg : GWorld → Nat → Except Err GWorld}
+    (hstep : ∀ g k g', WGood classes g.w → reg g k = .ok g' → Step classes g g')
+    (hreg : ∀ g k g', WGood classes g.w → SrcInv classes g.w.conf → reg g k = .ok g' → SrcInv classes g'.w.conf) :
+    ∀ (ps : List Nat) (g g' : GWorld), WGood classes g.w → SrcInv classes g.w.conf →
+      regParents reg g ps = .ok g' → SrcInv classes g'.w.conf := by
+  intro ps
+  induction ps with
+  | nil => intro g g' _ hi h; simp [regParents] at h; subst h; exact hi
+  | cons p ps ih =>
+    intro g g' hg hi h
+    unfold regParents at h
+    cases h1 : reg g p with
+    | error e => simp [h1] at h
+    | ok g1 =>
+      simp [h1] at h
+      exact ih g1 g' (hstep g p g1 hg h1).good (hreg g p g1 hg hi h1) h
+
+theorem syncList_srcInv {classes : List ClassDef} {reg : GWorld → Nat → Except Err GWorld}
+    (hstep : ∀ g k g', WGood classes g.w → reg g k = .ok g' → Step classes g g')
+    (hreg : ∀ g k g', WGood classes g.w → SrcInv classes g.w.conf → reg g k = .ok g' → SrcInv classes g'.w.conf) :
+    ∀ (ks : List Nat) (g g' : GWorld), WGood classes g.w → SrcInv classes g.w.conf →
+      syncList classes reg g ks = .ok g' → SrcInv classes g'.w.conf := by
+  intro ks
+  induction ks with
+  | nil => intro g g' _ hi h; simp [syncList] at h; subst h; exact hi
+  | cons k ks ih =>
+    intro g g' hg hi h
+    unfold syncList at h
+    cases h1 : reg g k with
+    | error e => simp [h1] at h
+    | ok g1 =>
+      simp only [h1] at h
+      cases hcd : classes[k]? with
+      | none => simp [hcd] at h
+      | some cd =>
+        simp only [hcd] at h
+        exact ih ({ g1 with synced := cacheSet g1.synced k (snapOf g1.w.conf cd.accessors) } : GWorld) g'
+          (hstep g k g1 hg h1).good (hreg g k g1 hg hi h1) h
+
+theorem registerClassG_srcInv {classes : List ClassDef} : ∀ (fuel : Nat) (g : GWorld) (k : Nat) (g' : GWorld),
+    WGood classes g.w → SrcInv classes g.w.conf → registerClassG classes fuel g k = .ok g' →
+    SrcInv classes g'.w.conf := by
+  intro fuel
+  induction fuel with
+  | zero => intro g k g' _ _ h; simp [registerClassG] at h
+  | succ f ih =>
+    intro g k g' hg hi h
+    unfold registerClassG at h
+    split at h
+    · cases h; exact hi
+    · cases hcd : classes[k]? with
+      | none => simp [hcd] at h
+      | some cd =>
+        simp only [hcd] at h
+        cases h1 : regParents (registerClassG classes f) g cd.parents with
+        | error e => simp [h1] at h
+        | ok g1 =>
+          simp only [h1] at h
+          have hstep : ∀ g k g', WGood classes g.w → registerClassG classes f g k = .ok g' → Step classes g g' :=
+            fun g k g' => registerClassG_step f g k g'
+          have hi1 := regParents_srcInv hstep (fun g k g' => ih g k g') cd.parents g g1 hg hi h1
+          have hg1 := (regParents_step hstep cd.parents g g1 hg h1).good
+          cases hdf : cd.defaults with
+          | none => simp [hdf] at h; subst h; exact hi1
+          | some cfg =>
+            simp only [hdf] at h
+            refine regCompWith_srcInv ?_ hg1 hi1 ?_ h
+            · intro g2 g2' hg2 hi2 hs
+              exact syncList_srcInv hstep (fun g k g' => ih g k g') _ g2 g2' hg2 hi2 hs
+            · intro k' hk'
+              cases hk'
+              exact ⟨cd, hcd, hdf⟩
+
+theorem syncTop_srcInv {classes : List ClassDef} {g g' : GWorld} (hg : WGood classes g.w)
+    (hi : SrcInv classes g.w.conf) (h : syncTop classes g = .ok g') : SrcInv classes g'.w.conf :=
+  syncList_srcInv (fun g k g' => registerClassG_step _ g k g') (fun g k g' => registerClassG_srcInv _ g k g')
+    _ g g' hg hi h
+
+theorem stepG_srcInv {classes : List ClassDef} {g g' : GWorld} {op : GOp} {o : Option Snap}
+    (hi : GInv classes g) (hs : SrcInv classes g.w.conf) (h : stepG classes g op = .ok (g', o)) :
+    SrcInv classes g'.w.conf := by
+  have hsync : ∀ g g', WGood classes g.w → SrcInv classes g.w.conf → syncTop classes g = .ok g' →
+      SrcInv classes g'.w.conf := fun g g' => syncTop_srcInv
+  cases op with
+  | op o' =>
+    cases o' with
+    | add items =>
+      simp only [stepG] at h
+      cases h1 : addWith (syncTop classes) g items with
+      | error err => simp [h1] at h
+      | ok g1 =>
+        simp [h1] at h
+        obtain ⟨hw, _⟩ := h; subst hw
+        refine addWith_srcInv hsync hi.good ?_ h1
+        intro k cd cfg hk hcd hdf kv hkv
+        exact .inl (hs.described hk hcd hdf kv hkv)
+    | reg name cfg =>
+      simp only [stepG] at h
+      cases h1 : regCompWith (syncTop classes) g cfg (.name name) with
+      | error err => simp [h1] at h
+      | ok g1 =>
+        simp [h1] at h
+        obtain ⟨hw, _⟩ := h; subst hw
+        exact regCompWith_srcInv hsync hi.good hs (fun k hk => by cases hk) h1
+    | pal k nc =>
+      simp only [stepG, getPaletteG] at h
+      cases hcd : classes[k]? with
+      | none => simp [hcd] at h
+      | some cd =>
+        simp only [hcd] at h
+        cases nc with
+        | true =>
+          simp only [if_true] at h
+          cases h1 : registerClassG classes (gFuel classes) g k with
+          | error err => simp [h1] at h
+          | ok g1 =>
+            simp only [h1] at h
+            have := registerClassG_srcInv _ g k g1 hi.good hs h1
+            cases hc : cacheGet g1.w.ncCache k with
+            | some s0 => simp [hc] at h; obtain ⟨hw, _⟩ := h; subst hw; exact this
+            | none => simp [hc] at h; obtain ⟨hw, _⟩ := h; subst hw; exact this
+        | false =>
+          simp only [Bool.false_eq_true, if_false] at h
+          cases hc : cacheGet g.w.conf.cache k with
+          | some s0 => simp [hc] at h; obtain ⟨hw, _⟩ := h; subst hw; exact hs
+          | none =>
+            simp only [hc] at h
+            cases h1 : registerClassG classes (gFuel classes) g k with
+            | error err => simp [h1] at h
+            | ok g1 =>
+              simp [h1] at h
+              obtain ⟨hw, _⟩ := h; subst hw
+              exact registerClassG_srcInv _ g k g1 hi.good hs h1
+    | get id =>
+      simp [stepG] at h
+      obtain ⟨hw, _⟩ := h; subst hw; exact hs
+  | setGlobal =>
+    simp only [stepG] at h
+    cases h1 : syncTop classes { g with isGlobal := true } with
+    | error err => simp [h1] at h
+    | ok g1 =>
+      simp [h1] at h
+      obtain ⟨hw, _⟩ := h; subst hw
+      exact syncTop_srcInv (g := { g with isGlobal := true }) hi.good hs h1
+  | syn k =>
+    simp only [stepG] at h
+    cases hc : cacheGet g.synced k with
+    | some s0 => simp [hc] at h; obtain ⟨hw, _⟩ := h; subst hw; exact hs
+    | none =>
+      simp only [hc] at h
+      cases hcd : classes[k]? with
+      | none => simp [hcd] at h
+      | some cd =>
+        simp only [hcd] at h
+        cases hgl : g.isGlobal with
+        | false => simp [hgl] at h; obtain ⟨hw, _⟩ := h; subst hw; exact hs
+        | true =>
+          simp only [hgl, Bool.not_true, Bool.false_eq_true, if_false] at h
+          cases h1 : registerClassG classes (gFuel classes) g k with
+          | error err => simp [h1] at h
+          | ok g1 =>
+            simp [h1] at h
+            obtain ⟨hw, _⟩ := h; subst hw
+            exact registerClassG_srcInv _ g k g1 hi.good hs h1
+  | sget k =>
+    simp only [stepG] at h
+    cases hc : cacheGet g.synced k with
+    | some s0 => simp [hc] at h; obtain ⟨hw, _⟩ := h; subst hw; exact hs
+    | none => simp [hc] at h
+
+theorem runG_srcInv {classes : List ClassDef} : ∀ (ops : List GOp) (g g' : GWorld),
+    GInv classes g → SrcInv classes g.w.conf → runG classes g ops = .ok g' → SrcInv classes g'.w.conf := by
+  intro ops
+  induction ops with
+  | nil => intro g g' _ hs h; simp [runG] at h; subst h; exact hs
+  | cons op ops ih =>
+    intro g g' hi hs h
+    unfold runG at h
+    cases h1 : stepG classes g op with
+    | error err => simp [h1] at h
+    | ok go =>
+      obtain ⟨g1, o⟩ := go
+      simp [h1] at h
+      exact ih g1 g' (stepG_inv hi h1).1 (stepG_srcInv hi hs h1) h
+
 end ColorsConf
